@@ -2,27 +2,13 @@
    integers, results flat lists of integers.  Byte strings travel as
    length :: codes; decimals as sign, mantissa, scale. *)
 From Coq Require Import List NArith ZArith QArith Qcanon Bool.
-From ACB Require Import Base.Outcome Model.CsvFields Model.CsvTable.
+From ACB Require Import Base.Outcome Base.QcExtra Base.Fit Base.Arith Model.Tx Model.Ledger Model.Sfl
+     Model.DeltaList Model.App Model.CsvFields Model.CsvTable Model.Summary Exec.Codec.
 Import ListNotations.
 Local Open Scope Z_scope.
 
-Definition P (T : Type) : Type := list Z -> option (T * list Z).
-Definition pret {T} (v : T) : P T := fun l => Some (v, l).
-Definition pbind {T U} (p : P T) (f : T -> P U) : P U :=
-  fun l => match p l with Some (v, r) => f v r | None => None end.
-Notation "x <~ p ;; k" := (pbind p (fun x => k)) (at level 100, p at next level, right associativity).
-
-Definition pZ : P Z := fun l => match l with z :: r => Some (z, r) | [] => None end.
-Definition pN : P N := z <~ pZ ;; pret (Z.to_N z).
+(* the parser combinators, [ptx], [oapp] ... are those of Exec/Codec.v *)
 Definition pnat : P nat := z <~ pZ ;; pret (Z.to_nat z).
-Definition pbool : P bool := z <~ pZ ;; pret (negb (z =? 0)).
-Fixpoint prep {T} (n : nat) (p : P T) : P (list T) :=
-  match n with
-  | O => pret []
-  | S k => x <~ p ;; r <~ prep k p ;; pret (x :: r)
-  end.
-Definition plist {T} (p : P T) : P (list T) :=
-  fun l => match l with z :: r => prep (Z.to_nat z) p r | [] => None end.
 Definition popt {T} (p : P T) : P (option T) :=
   b <~ pbool ;; (if b then x <~ p ;; pret (Some x) else pret None).
 Definition pbytes : P bytes := plist pN.
@@ -52,7 +38,6 @@ Definition pctx0 : P (ctx * bytes) :=
            x_af := from_strep_data af; x_ri := ri |}, af).
 
 (* ---- output ---- *)
-Definition obool (b : bool) : Z := if b then 1 else 0.
 Definition obytes (b : bytes) : list Z := Z.of_nat (length b) :: map Z.of_N b.
 Definition odec (d : dec) : list Z := [obool (d_neg d); Z.of_N (d_mant d); Z.of_nat (d_scale d)].
 Definition odate (d : date) : list Z := [Z.of_N (dt_y d); Z.of_N (dt_m d); Z.of_N (dt_d d)].
@@ -160,6 +145,57 @@ Definition run_read_cells : P (list Z) :=
   let tbl0 := snd (intern_all [] pre) in
   pret (ores (fun x => Z.of_nat (length (fst x)) :: flat_map octx (fst x)) (read_table tbl0 h rows)).
 
+(* ---- C10: summary mode ---- *)
+Definition oaction (a : action) : list Z :=
+  match a with
+  | Buy sh aps com rate crate => 0 :: oQ sh ++ oQ aps ++ oQ com ++ oQ rate ++ oQ crate
+  | Sell sh aps com rate crate sfl =>
+      1 :: oQ sh ++ oQ aps ++ oQ com ++ oQ rate ++ oQ crate
+        ++ match sfl with Some (v, f) => 1 :: oQ v ++ [obool f] | None => [0] end
+  | Roc aps rate => 2 :: oQ aps ++ oQ rate
+  | Sfla sh aps => 3 :: oQ sh ++ oQ aps
+  | Split post pre io => 4 :: oQ post ++ oQ pre ++ [obool io]
+  end.
+Definition otx (t : tx) : list Z :=
+  [Z.of_N (t_sec t); t_td t; t_sd t; Z.of_N (af_id (t_af t)); obool (af_reg (t_af t));
+   obool (af_dflt (t_af t)); obool (t_glob t); Z.of_N (t_ri t)] ++ oaction (t_act t).
+
+Section Summaries.
+  Variable A : arith.
+  (* make_aggregate_summary_txs: securities in name order *)
+  Fixpoint all_summaries (latest : Z) (annual : bool) (secs : list (N * (list delta * option stop)))
+    : res (list tx) :=
+    match secs with
+    | [] => Ok []
+    | (_, (ds, _)) :: r =>
+        one <- make_summary A latest ds annual ;;
+        rest <- all_summaries latest annual r ;;
+        Ok (one ++ rest)
+    end.
+End Summaries.
+
+(* 20: arith, annual, date, rows ->
+   status of the summary, summary rows, re-run of (summary rows ++ rows after
+   the date), full run *)
+Definition run_summary : P (list Z) :=
+  a <~ pZ ;; annual <~ pbool ;; latest <~ pZ ;; rows <~ plist ptx ;;
+  let A := arith_of a in
+  let full := run_app A [] rows in
+  pret (match full with
+        | Ok secs =>
+            if existsb (fun x => match snd (snd x) with Some _ => true | None => false end) secs
+            then [1] ++ oapp full
+            else match all_summaries A latest annual secs with
+                 | Ok sums =>
+                     let rerun := run_app A [] (number_from 0 (sums ++ rows_after latest rows)) in
+                     [0; Z.of_nat (length sums)] ++ flat_map otx sums ++ oapp rerun ++ oapp full
+                 | Rej e => [2; orej e]
+                 | Panic p => 3 :: opanic p
+                 end
+        | Rej e => [4; orej e]
+        | Panic p => 5 :: opanic p
+        end).
+
 Definition dispatch (l : list Z) : list Z :=
   match l with
   | mode :: r =>
@@ -169,6 +205,7 @@ Definition dispatch (l : list Z) : list Z :=
                | 12 => run_aff_seq
                | 13 => run_roundtrip
                | 14 => run_read_cells
+               | 20 => run_summary
                | _ => fun _ => None
                end in
       match p r with
